@@ -466,6 +466,7 @@ func (o *ProjectOptions) LoadModel(ctx context.Context) (map[string]any, error) 
 	if err != nil {
 		return nil, err
 	}
+	configDetails.Environment = o.Environment
 
 	return loader.LoadModelWithContext(ctx, *configDetails, o.loadOptions...)
 }
